@@ -55,6 +55,14 @@ def gen_scenarios(seed, tier):
         d["cancel_before"] = rng.random() < 0.35
         if d["cancel_before"] and rng.random() < 0.6:
             d.update(nsub=3, keep=True, durs=[rng.choice([1.0, 2.0, 3.0]) for _ in range(3)], when=rng.choice([0, 0, 0.5]))
+        if i % 10 == 4:
+            # the trigger falls on the very instant at which a time-out fires: the timeout thread is busy cancelling overdue jobs (or
+            # about to go back to sleep) when the last reference goes / shutdown() / the exit hook sets its wake-up event
+            # (the callables outlive the observation: no later completion can wake the thread a second time and mask a lost wake-up)
+            d.update(kind="timeout", tmo=1.0, when=1.0, nsub=rng.choice([1, 2, 3]), durs=[500.0, 500.0, 500.0],
+                     trigger=rng.choice(["shutdown", "exit"]), cancel_before=False)
+            if rng.random() < 0.6:
+                d.update(mode="hold", p_switch=rng.choice([0.0, 0.02, 0.1]), trace_lines=True)
         if i % 10 == 9:
             # the retry executor asleep in a long back-off for a failed attempt: cancel-and-drop, or drop everything, in the middle of it
             d.update(kind="retry", trigger=rng.choice(["backoff-cancel", "backoff-drop"]), nsub=rng.choice([1, 2]),
